@@ -111,3 +111,15 @@ Theorem c11_layout_valid_for_tn : forall cfg tn, 0 <= cfg < 128 -> 0 <= tn < 8 -
   (~ In cfg c11_configs -> trx_layout cfg tn = None /\ trx_layout_real cfg tn = -1).
 Proof. exact layout_valid_for_tn. Qed.
 Print Assumptions c11_layout_valid_for_tn.
+
+(* ... so it gets a channel state when the timeslot is configured: the model of l1sched_configure_ts() (one state per type of
+   the 64-bit mask, compared with the real function for every combination and timeslot on every run) gives a state to every
+   channel any frame of the layout uses, and to nothing outside the mask *)
+Theorem c11_configured_has_state : forall L fr d, In L tx_layouts -> In fr (ly_frames L) -> fr_chan d fr <> tx_L1SCHED_IDLE ->
+  In (fr_chan d fr) (trx_configured L).
+Proof. exact configured_has_state. Qed.
+Print Assumptions c11_configured_has_state.
+
+Theorem c11_configured_only_mask : forall L c, In c (trx_configured L) -> 0 <= c < tx_CHAN_MAX /\ Z.testbit (ly_mask L) c = true.
+Proof. exact configured_only_mask. Qed.
+Print Assumptions c11_configured_only_mask.
